@@ -63,6 +63,10 @@ def run(ctx):
         # conditions ending in the pair of bounds SetTimeRange itself writes, after a bound of any other form
         parts.append(("tail", cfg(ctx, maxatoms=4, minatoms=3, maxt=3, mode="tail", nt=0, ops=OPS3, spells='{"time", "Time"}',
                                   forms='{"rfc", "now", "int"}', bases="{2, 3}", calls=2, wins="{1, 2, 5}", topor=False), None, None))
+        # old bounds at and one nanosecond beyond the smallest and largest instant (a bound that cannot be evaluated is
+        # stripped like any other)
+        parts.append(("edge", cfg(ctx, maxatoms=1, mode="all", nt=1, ops=OPS3, bases="{0, 5}", offn=1, forms='{"rfc", "int"}',
+                                  spells='{"time"}', calls=2, wins="{1, 2}", topor=False), None, None))
         # empty and reversed windows among ordinary ones, every sequence of 3
         parts.append(("empty", cfg(ctx, maxatoms=1, mode="rot", nt=1, ops=OPS3, wins="{1, 2, 6, 7}", calls=3), None, None))
         parts.append(("sim", cfg(ctx, maxatoms=3, minatoms=2, bases="{1, 2, 3, 4}", offn=1, nt=1, shapes=2, wins="{1, 2, 3, 4, 5, 6, 7}"), "num=150", 8))
